@@ -11,6 +11,12 @@ class U:
         return pp.tok("%s%03d" % (p, self.n), g=g)
 
 
+# the pool of macro names; a check may install names that lie next to the predefined ones (round-7 seeded change: the returned table
+# lost every name that starts with SV_COV_)
+NAMES = ["A", "B", "C"]
+NEAR_PREDEFINED = ["SV_COV_LEVEL", "SV_COV_", "SV_COVX"]
+
+
 def mixed_program(rng, u, depth=0, allow_pos=True, size=None, macros=None, comments=True, strings=True):
     """returns items; `macros`: dict name -> number of formals currently defined (tracked loosely;
     the specification decides what a usage yields, including errors)"""
@@ -30,7 +36,7 @@ def mixed_program(rng, u, depth=0, allow_pos=True, size=None, macros=None, comme
         elif r < 0.33 and comments:
             # a usage that directly abuts the previous token, of a macro whose expansion OPENS with a comment that is
             # directly followed by a token: the comment is the only separator, through the expansion boundary
-            name = rng.choice(["A", "B", "C"])
+            name = rng.choice(NAMES)
             c = pp.bt("cmt", "/* open%d */" % u.n, g=True)
             items += [pp.define(name, None, [c, pp.bt("lit", "o%d" % u.n)]), pp.nl(), u.tok(g=True), pp.use(name), u.tok(), pp.nl()]
             macros[name] = 0
@@ -41,7 +47,7 @@ def mixed_program(rng, u, depth=0, allow_pos=True, size=None, macros=None, comme
         elif r < 0.45 and strings:
             items += [pp.strlit('"s%d //x /*y*/"' % u.n), u.tok()]
         elif r < 0.58:
-            name = rng.choice(["A", "B", "C"])
+            name = rng.choice(NAMES)
             nf = rng.choice([0, 0, 1, 2])
             formals = [("p%d" % i, [pp.bt("lit", "dflt%d" % i)] if rng.random() < 0.3 and i == nf - 1 else None) for i in range(nf)] if nf else None
             body = []
@@ -54,7 +60,7 @@ def mixed_program(rng, u, depth=0, allow_pos=True, size=None, macros=None, comme
                 elif q < 0.75 and comments:
                     body.append(pp.bt("cmt", "/* bc%d */" % rng.randint(0, 9)))
                 elif q < 0.80 and not (body and body[-1]["k"] == "str"):
-                    body.append(pp.bt("undef", rng.choice(["A", "B", "C"])) if rng.random() < 0.85 else pp.bt("undefall"))
+                    body.append(pp.bt("undef", rng.choice(NAMES)) if rng.random() < 0.85 else pp.bt("undefall"))
                 elif q < 0.88 and macros:
                     m = rng.choice(sorted(macros))
                     if macros[m] == 0 and m != name:
@@ -63,7 +69,7 @@ def mixed_program(rng, u, depth=0, allow_pos=True, size=None, macros=None, comme
                     # a conditional inside the body (chosen when the expansion is rescanned); directly behind a plain token only
                     def br():
                         return [pp.bt("lit", "c%d" % rng.randint(0, 99)) for _ in range(rng.randint(0, 2))]
-                    body.append({"k": "cond", "n": rng.choice(["A", "B", "C"]), "s": rng.choice(["ifdef", "ifndef"]), "g": False,
+                    body.append({"k": "cond", "n": rng.choice(NAMES), "s": rng.choice(["ifdef", "ifndef"]), "g": False,
                                  "a": [{"k": "grp", "n": "", "a": br(), "g": False, "s": ""}, {"k": "grp", "n": "", "a": br(), "g": False, "s": ""}]})
                 else:
                     body.append(pp.bt("lit", rng.choice(["+", "-", ";"])))
@@ -72,11 +78,11 @@ def mixed_program(rng, u, depth=0, allow_pos=True, size=None, macros=None, comme
             items += [pp.define(name, formals, body if body else None), pp.nl()]
             macros[name] = nf
         elif r < 0.64:
-            name = rng.choice(["A", "B", "C"])
+            name = rng.choice(NAMES)
             items += [pp.undef(name), pp.nl()]
             macros.pop(name, None)
         elif r < 0.80:
-            name = rng.choice(sorted(macros)) if macros and rng.random() < 0.9 else rng.choice(["A", "B", "C"])
+            name = rng.choice(sorted(macros)) if macros and rng.random() < 0.9 else rng.choice(NAMES)
             nf = macros.get(name, 0)
             def actual():
                 a = [pp.bt("lit", "x%d" % rng.randint(0, 99))] if rng.random() < 0.85 else []
@@ -112,12 +118,12 @@ def mixed_program(rng, u, depth=0, allow_pos=True, size=None, macros=None, comme
             if comments and rng.random() < 0.3:
                 items.append(pp.cmt(" after use "))
         elif r < 0.90 and depth < 2:
-            name = rng.choice(["A", "B", "C", "__LINE__"]) if allow_pos else rng.choice(["A", "B", "C"])
+            name = rng.choice(NAMES + ["__LINE__"]) if allow_pos else rng.choice(NAMES)
             items.append(pp.ifdef(name) if rng.random() < 0.6 else pp.ifndef(name))
             sub_m = dict(macros)
             items += mixed_program(rng, u, depth + 1, allow_pos, rng.randint(0, 3), sub_m, comments, strings)
             for _ in range(rng.choice([0, 0, 0, 1, 1, 2, 3])):      # chains with several `elsif: at most one branch is live
-                items.append(pp.elsif(rng.choice(["A", "B", "C"])))
+                items.append(pp.elsif(rng.choice(NAMES)))
                 items += mixed_program(rng, u, depth + 1, allow_pos, rng.randint(0, 2), dict(macros), comments, strings)
             if rng.random() < 0.5:
                 items.append(pp.else_())
